@@ -67,6 +67,11 @@ theorem C01_rewrites_necessary :
   · simp [semiStructured, timestampNtz, integerPrecision, duckOf, duckDom]
   · simp [semiStructured, timestampNtz, floatToDouble, duckOf, duckDom]
 
+/-- finding `C01/decimal-param-exponent`: the smallest magnitude at scale 9, `Decimal('1E-9')`, is rendered in scientific
+    notation by the pyformat binding and rejected; a 38-digit value at scale 37 is rendered plainly -/
+theorem finding_C01_decimal_param_exponent :
+    pyformatDecimalAccepted 1 (-9) = false ∧ pyformatDecimalAccepted 38 (-37) = true ∧ pyformatDecimalAccepted 3 (-2) = true := by decide
+
 /-! ## Python types -/
 
 def C01_Pytype_Full : Prop := ∀ k, pyOf (toDuck k) = connPy k
